@@ -178,6 +178,9 @@ type scriptT struct {
 	sessions  int
 	rewrites  int  // same-timestamp rewrites of an existing leaf in the stream
 	selfNames bool // the device fills prefix.target with names of its own choosing
+	noise     bool // the device also sends updates that carry no value at all
+	noised    int
+	atomics   int // atomic groups in the stream
 	selfNamed int
 	allSentAt time.Time // when a session had handed its last response to the transport
 	mu        sync.Mutex
@@ -199,7 +202,7 @@ type storedLeaf struct {
 // genScript generates the response stream of one target and its model.
 // pathOrigin: put the origin into update paths instead of the prefix (D19's input class).
 func genScript(rng *rand.Rand, name string, pathOrigin bool, tsBase int64) *scriptT {
-	s := &scriptT{name: name, mdl: newTModel(), mdlAlt: newTModel(), structOf: map[string]storedLeaf{}, selfNames: rng.Intn(3) == 0}
+	s := &scriptT{name: name, mdl: newTModel(), mdlAlt: newTModel(), structOf: map[string]storedLeaf{}, selfNames: rng.Intn(3) == 0, noise: !pathOrigin && rng.Intn(4) == 0}
 	conts := []string{"c0", "c1", "c2", "interfaces", "state"}
 	leafs := []string{"l0", "l1", "l2", "in-octets", "oper-status", "name"}
 	keyvals := []string{"k1v", "eth0", "10", "v 2"}
@@ -237,6 +240,36 @@ func genScript(rng *rand.Rand, name string, pathOrigin bool, tsBase int64) *scri
 		origin := origins[rng.Intn(len(origins))]
 		deprecated := rng.Intn(6) == 0
 		n := &gpb.Notification{Timestamp: ts, Prefix: &gpb.Path{}}
+		// An atomic group, written once: its container is this group's alone, four
+		// index elements deep (longer than any CLI query drawn below, so that a
+		// query selects the container exactly when it selects its members), never
+		// rewritten with fewer members and never deleted (the client library
+		// applies the members one by one and knows nothing of "atomic"; what a
+		// shrinking group leaves behind there is outside the statement).
+		if !pathOrigin && rng.Intn(8) == 0 {
+			cont := []pelem{{Name: fmt.Sprintf("atom%d", s.atomics)}, {Name: "g"}, {Name: "h"}}
+			s.atomics++
+			n.Atomic = true
+			pre := toPath(cont, false)
+			n.Prefix.Elem = pre.Elem
+			n.Prefix.Origin = origin
+			members := leafs[:2+rng.Intn(3)]
+			for _, lf := range members {
+				v := genValue(rng)
+				n.Update = append(n.Update, &gpb.Update{Path: toPath([]pelem{{Name: lf}}, false), Val: v.TV})
+				key := append(append([]string{name, effOrigin(origin)}, indexOf(cont)...), lf)
+				s.mdl.set(key, v.Go)
+				s.mdlAlt.set(append(append([]string{name, defaultOrigin}, indexOf(cont)...), lf), v.Go)
+			}
+			if s.noise && rng.Intn(2) == 0 {
+				nu := &gpb.Update{Path: toPath([]pelem{{Name: fmt.Sprintf("zznoise%d", s.noised)}}, false)}
+				at := rng.Intn(len(n.Update) + 1)
+				n.Update = append(n.Update[:at], append([]*gpb.Update{nu}, n.Update[at:]...)...)
+				s.noised++
+			}
+			s.responses = append(s.responses, &gpb.SubscribeResponse{Response: &gpb.SubscribeResponse_Update{Update: n}})
+			continue
+		}
 		useDelete := len(known) > 3 && rng.Intn(6) == 0 && !pathOrigin
 		if useDelete {
 			// exact leaf, subtree (container prefix) or keyed list entry
@@ -321,6 +354,17 @@ func genScript(rng *rand.Rand, name string, pathOrigin bool, tsBase int64) *scri
 				s.structOf[model.Key(append([]string{name, effOrigin(origin)}, indexOf(es)...))] = storedLeaf{effOrigin(origin), es}
 				s.mdlAlt.set(append([]string{name, defaultOrigin}, indexOf(es)...), v.Go)
 				known = append(known, stored{origin, es})
+			}
+			// Noise: an update without any value (a device bug, or a schema node the
+			// device cannot render) somewhere among the notification's updates. The
+			// statement says nothing about what becomes of it; every OTHER leaf of
+			// the stream must be relayed regardless, so no view is compared on it.
+			if s.noise && forcedLeaf == "" && rng.Intn(4) == 0 {
+				es := append(append([]pelem{}, base...), pelem{Name: fmt.Sprintf("zznoise%d", s.noised)})
+				nu := &gpb.Update{Path: toPath(es[split:], deprecated)}
+				at := rng.Intn(len(n.Update) + 1)
+				n.Update = append(n.Update[:at], append([]*gpb.Update{nu}, n.Update[at:]...)...)
+				s.noised++
 			}
 		}
 		// A target may omit the prefix altogether.
@@ -578,6 +622,20 @@ func tailFile(p string, n int) string {
 	return string(b)
 }
 
+// ignored: paths no view is compared on — the collector's own meta/ subtree and
+// the value-less noise updates some targets send (see genScript).
+func ignored(path []string) bool {
+	if len(path) >= 2 && path[1] == "meta" {
+		return true
+	}
+	for _, e := range path {
+		if strings.HasPrefix(e, "zznoise") {
+			return true
+		}
+	}
+	return false
+}
+
 func valuesEqual(a, b interface{}) bool {
 	if fa, ok := a.(float64); ok {
 		if fb, ok := b.(float64); ok {
@@ -645,6 +703,8 @@ func runScenario(r *vlib.Run, mode string, trial int, rng *rand.Rand) {
 		sc.scripts = append(sc.scripts, s)
 		r.Count("stream_same_timestamp_rewrites", int64(s.rewrites))
 		r.Count("stream_notifications_with_device_chosen_prefix_target", int64(s.selfNamed))
+		r.Count("stream_value_less_noise_updates", int64(s.noised))
+		r.Count("stream_atomic_groups", int64(s.atomics))
 		lis, err := net.Listen("tcp", "127.0.0.1:0")
 		if err != nil {
 			r.Inconclusive("cannot listen")
@@ -828,7 +888,7 @@ func runScenario(r *vlib.Run, mode string, trial int, rng *rand.Rand) {
 			return
 		}
 		for _, l := range pollc.Leaves() {
-			if !(len(l.Path) >= 2 && l.Path[1] == "meta") {
+			if !ignored(l.Path) {
 				pollMid[model.Key(l.Path)] = true
 			}
 		}
@@ -873,7 +933,7 @@ func runScenario(r *vlib.Run, mode string, trial int, rng *rand.Rand) {
 						fcancel()
 						var leaves []string
 						for _, l := range fresh.Leaves() {
-							if len(leaves) < 12 && !(len(l.Path) >= 2 && l.Path[1] == "meta") {
+							if len(leaves) < 12 && !ignored(l.Path) {
 								leaves = append(leaves, strings.Join(l.Path, "/"))
 							}
 						}
@@ -943,7 +1003,7 @@ func runScenario(r *vlib.Run, mode string, trial int, rng *rand.Rand) {
 		}
 		got := map[string]interface{}{}
 		for _, l := range o.c.Leaves() {
-			if len(l.Path) >= 2 && l.Path[1] == "meta" {
+			if ignored(l.Path) {
 				continue
 			}
 			got[model.Key(l.Path)] = l.Val
@@ -1005,7 +1065,7 @@ func runScenario(r *vlib.Run, mode string, trial int, rng *rand.Rand) {
 		}
 		for _, n := range seen {
 			u, isUpd := n.(client.Update)
-			if !isUpd || (len(u.Path) >= 2 && u.Path[1] == "meta") {
+			if !isUpd || ignored(u.Path) {
 				continue
 			}
 			r.Count("streamed_updates_checked", 1)
@@ -1035,7 +1095,7 @@ func runScenario(r *vlib.Run, mode string, trial int, rng *rand.Rand) {
 		}
 		got := map[string]interface{}{}
 		for _, l := range pollc.Leaves() {
-			if len(l.Path) >= 2 && l.Path[1] == "meta" {
+			if ignored(l.Path) {
 				continue
 			}
 			got[model.Key(l.Path)] = l.Val
@@ -1265,7 +1325,7 @@ func cliChecks(r *vlib.Run, mode string, trial int, rng *rand.Rand, sc *scenario
 				} else {
 					kp = strings.Split(k, "/")
 				}
-				if len(kp) >= 2 && kp[1] == "meta" {
+				if ignored(kp) {
 					delete(got, k)
 				}
 			}
@@ -1347,7 +1407,7 @@ func cliChecks(r *vlib.Run, mode string, trial int, rng *rand.Rand, sc *scenario
 			pre = append(pre, pbIndex(n.GetPrefix())...)
 			for _, u := range n.GetUpdate() {
 				kp := append(append([]string{}, pre...), pbIndex(u.GetPath())...)
-				if len(kp) >= 2 && kp[1] == "meta" {
+				if ignored(kp) {
 					continue
 				}
 				k := model.Key(kp)
@@ -1433,7 +1493,7 @@ func cliChecks(r *vlib.Run, mode string, trial int, rng *rand.Rand, sc *scenario
 		}
 		for gi, got := range groups {
 			for k := range got {
-				if kp := model.Unkey(k); len(kp) >= 2 && kp[1] == "meta" {
+				if kp := model.Unkey(k); ignored(kp) {
 					delete(got, k)
 				}
 			}
@@ -1593,7 +1653,7 @@ func main() {
 		Assumptions: []string{
 			"the model (map from index path [target, origin-or-openconfig, elems and key values ordered by key name] to the Go scalar the generator chose before hand-encoding it) is the specification of a target's final state",
 			"quiescence is logical (nonce sentinel seen by every observer); a sentinel not seen within 60 s is inconclusive unless the collector's log shows dropped updates or the subscription was refused",
-			"a notification's deletes never cover paths updated by the same notification; timestamps strictly increase; no atomic notifications; path element names contain no '/' or '\"'",
+			"a notification's deletes never cover paths updated by the same notification; timestamps strictly increase; atomic groups are written once into a container of their own and never shrink or get deleted; value-less updates are noise no view is compared on; path element names contain no '/' or '\"'",
 			"the collector's own meta/ subtree is excluded from every comparison",
 		},
 		QuickShards: 8, ThoroughShards: 16,
